@@ -551,6 +551,12 @@ func runFile(r *ev.Run, fc fileCase) {
 			}
 		}
 	}
+	// (e) one blob below a bytesRef part unfetchable, through every read path (deepfaults.go)
+	if len(data) > 0 && len(in.problems) == 0 {
+		checkDeepFaults(r, r.Rand("deepfault/"+fc.CaseID), st, fileRef, data, "writer-file", func(sig, op, format string, a ...any) {
+			viol(sig, "%s: "+format, append([]any{op}, a...)...)
+		})
+	}
 	if fc.Length > firstChunk && atomic.AddInt32(&fileSamples, 1) <= 2 {
 		r.Sample(map[string]any{"kind": "file", "case": fc, "chunks": len(in.chunks), "schema_blobs": in.nSchema, "tree_depth": in.maxDepth})
 	}
